@@ -13,5 +13,18 @@ theorem hit_cache_src : hit_cache_args = "c.Duration, c.Duration" := by decide
 /-- A response weighs ⌊len / estimate⌋ events. -/
 theorem resp_weight_src : resp_weight = "datasize.ByteSize(resp.Len()) / l.respSzEst" := by decide
 theorem is_backoff_src : is_backoff_return = "counterVal.(*atomic.Uint64).Load() >= uint64(l.count)" := by decide
+/-- A profile's own limit is `RPS` events per second (`ProfLim` in the driver uses 10⁹ ns). -/
+theorem prof_window_src : prof_window = "uint(conf.RPS), time.Second" := by decide
+theorem prof_resp_weight_src : prof_resp_weight = "datasize.ByteSize(resp.Len()) / r.respSzEst" := by decide
+/-- The profile limiter applies to the profile's subnets only (all clients when none are set). -/
+theorem prof_subnet_cond_src :
+    prof_subnet_cond = "len(r.clientSubnets) > 0 && !r.clientSubnets.Contains(remoteIP)" := by decide
+/-- Only the configured protocols (plain DNS) are rate limited. -/
+theorem mw_proto_gate_src : mw_proto_gate = "!slices.Contains(mw.protos, ri.Proto)" := by decide
+/-- `Update` replaces the dynamic networks. -/
+theorem allowlist_update_src : allowlist_update = "subnets" := by decide
+theorem any_cond_src : any_cond = "l.refuseANY && qType == dns.TypeANY" := by decide
+/-- The library middleware drops port-less remote addresses before consulting the limiter. -/
+theorem lib_port_cond_src : lib_port_cond = "addrPort.Port() == 0" := by decide
 
 end Agd.Tie.C09
